@@ -2,7 +2,7 @@
    Statements only; proofs in Proofs/StatusIndep.v, Proofs/C15Proof.v. *)
 From Coq Require Import List ZArith QArith Bool Arith.
 From PV Require Import Model.Types Model.Sim Model.Example Proofs.Base Proofs.RunLemmas
-  Proofs.StatusIndep Proofs.C15Proof.
+  Proofs.StatusIndep Proofs.C13Proof Proofs.C15Proof Proofs.C15Stable.
 Import ListNotations.
 Open Scope nat_scope.
 
@@ -12,9 +12,11 @@ Open Scope nat_scope.
    stable_heads c o tr: in every `updated` snapshot u of the trace,
    __update is idempotent: update c o u = u.  This side condition is where the
    resumed run differs from the uninterrupted one: it calls __update once more
-   on the state the paused run returned.  It is PROVED below for everything in
-   __update except the PERT refresh (see C15_partial note in DESIGN.md); the
-   harness checks it on the implementation at every step of every run it
+   on the state the paused run returned.  It is PROVED below
+   (C15_update_idempotent_up_to_pert, C15_pause_resume_pert) for everything in
+   __update except the PERT refresh, so that only
+   pert_stable c u : update_pert c (time u) u = u  remains as a hypothesis;
+   the harness checks it on the implementation at every step of every run it
    explores (second __update call from the observer).
 
    For EVERY configuration, options, incoming state, pause step k and final
@@ -27,6 +29,27 @@ Theorem C15_pause_resume : forall c o s k m, k <= m ->
   fst (simulate c (resume_opts o m) paused) = fst (simulate c (with_max o m) s).
 Proof. exact pause_resume. Qed.
 Print Assumptions C15_pause_resume.
+
+(* a second __update on a state __update has just produced changes nothing
+   except, possibly, through the PERT refresh: the finishing pass finds nothing
+   to finish, component states are already the function of the task states,
+   finished assemblies are already removed, no NONE task has an open gate
+   (placement records consistent: PInv, which holds in every run, C13) *)
+Theorem C15_update_idempotent_up_to_pert : forall c o s, PInv s ->
+  let u := update c o s in
+  update c o u = update_pert c (time u) u.
+Proof. exact update_stable. Qed.
+Print Assumptions C15_update_idempotent_up_to_pert.
+
+(* the pause / resume theorem with the side condition reduced to the PERT
+   refresh at the `updated` snapshots of the uninterrupted run *)
+Theorem C15_pause_resume_pert : forall c o s k m, k <= m -> Forest c ->
+  (o_init_state o = true \/ PInv s) ->
+  Forall (fun ob : obs => snd (fst ob) = PUpdated -> pert_stable c (snd ob)) (snd (simulate c (with_max o m) s)) ->
+  let paused := fst (simulate c (with_max o k) s) in
+  fst (simulate c (resume_opts o m) paused) = fst (simulate c (with_max o m) s).
+Proof. intros c o s k m. exact (pause_resume_pert c o s k m). Qed.
+Print Assumptions C15_pause_resume_pert.
 
 (* no phase reads project.status, which is the only field in which the state
    returned by the paused run differs from the uninterrupted loop state *)
